@@ -1,5 +1,5 @@
 /*VERIF
-{ "tu": "src/data.c", "enforce": "dispatch_data_create_subrange", "props": ["C13"], "seq": true, "timeout": 120,
+{ "tu": "src/data.c", "enforce": "dispatch_data_create_subrange", "props": ["C13", "C20"], "seq": true, "timeout": 120,
   "stub_note": "_dispatch_object_alloc (allocator), dispatch_retain: harness stubs with ghost counters" }
 VERIF*/
 #ifdef VERIF_PRE
